@@ -8,7 +8,6 @@ import (
 	"fmt"
 	"math/rand"
 	"os"
-	"sort"
 	"strings"
 	"sync"
 	"testing"
@@ -102,77 +101,6 @@ func genHistory(rng *rand.Rand, n int) []step {
 		}
 	}
 	return hist
-}
-
-type got struct {
-	topic, payload string
-	qos            packet.QOS
-	retain, dup    bool
-}
-
-func describeGot(ps []*packet.Publish) []string {
-	var out []string
-	for _, p := range ps {
-		out = append(out, fmt.Sprintf("{%q %s q%d retain=%t dup=%t}", p.Message.Topic, clipS(string(p.Message.Payload)), p.Message.QOS, p.Message.Retain, p.Dup))
-	}
-	sort.Strings(out)
-	return out
-}
-
-func describeExp(es []ref.Expect) []string {
-	var out []string
-	for _, e := range es {
-		var qs []int
-		for q := range e.QOS {
-			qs = append(qs, int(q))
-		}
-		sort.Ints(qs)
-		out = append(out, fmt.Sprintf("{%q %s q∈%v retain=%t x%d..%d}", e.Topic, clipS(e.Payload), qs, e.Retain, e.Min, e.Max))
-	}
-	sort.Strings(out)
-	return out
-}
-
-// compare deliveries with expectations; returns "" or a description + key.
-func compare(gotP []*packet.Publish, exp []ref.Expect) (string, string) {
-	used := make([]int, len(exp))
-	for _, p := range gotP {
-		found := -1
-		for i, e := range exp {
-			if e.Topic == p.Message.Topic && e.Payload == string(p.Message.Payload) && e.Retain == p.Message.Retain {
-				found = i
-				break
-			}
-		}
-		if found < 0 {
-			// classify
-			for _, e := range exp {
-				if e.Payload == string(p.Message.Payload) && e.Topic == p.Message.Topic {
-					return "retain-flag", fmt.Sprintf("delivery %q/%s carries retain=%t, expected %t", p.Message.Topic, clipS(string(p.Message.Payload)), p.Message.Retain, e.Retain)
-				}
-				if e.Payload == string(p.Message.Payload) {
-					return "altered", fmt.Sprintf("delivery of %s arrived on topic %q, expected %q", clipS(e.Payload), p.Message.Topic, e.Topic)
-				}
-			}
-			return "unexpected-delivery", fmt.Sprintf("unexpected delivery {%q %s q%d retain=%t}", p.Message.Topic, clipS(string(p.Message.Payload)), p.Message.QOS, p.Message.Retain)
-		}
-		used[found]++
-		if !exp[found].QOS[p.Message.QOS] {
-			return "qos", fmt.Sprintf("delivery {%q %s} has QoS %d, allowed %v", p.Message.Topic, clipS(string(p.Message.Payload)), p.Message.QOS, describeExp(exp[found:found+1]))
-		}
-		if (p.Message.QOS > 0) != (p.ID != 0) {
-			return "packet-id", fmt.Sprintf("delivery QoS %d with packet id %d", p.Message.QOS, p.ID)
-		}
-	}
-	for i, e := range exp {
-		if used[i] < e.Min {
-			return "missing-delivery", fmt.Sprintf("expected delivery %v arrived %d times", describeExp(exp[i:i+1]), used[i])
-		}
-		if used[i] > e.Max {
-			return "duplicate-delivery", fmt.Sprintf("delivery %v arrived %d times", describeExp(exp[i:i+1]), used[i])
-		}
-	}
-	return "", ""
 }
 
 func runSequential(r *h.Run, idx int, hist []step) {
@@ -278,8 +206,8 @@ func runSequential(r *h.Run, idx int, hist []step) {
 		}
 		for who := range cl.Peers {
 			gotP := cl.Drain(who)
-			if key, msg := compare(gotP, expect[who]); key != "" {
-				fail(i, key, fmt.Sprintf("client %s received %v, model expects %v: %s", who, describeGot(gotP), describeExp(expect[who]), msg))
+			if key, msg := ref.CompareDeliveries(gotP, expect[who]); key != "" {
+				fail(i, key, fmt.Sprintf("client %s received %v, model expects %v: %s", who, ref.DescribeGot(gotP), ref.DescribeExp(expect[who]), msg))
 				return
 			}
 			if err := cl.Peers[who].ProtocolError(); err != nil {
